@@ -22,6 +22,9 @@ func vrtHarness_C02_tdc() {
 	ctx, cancel := context.WithTimeout(context.Background(), 2*time.Second)
 	defer cancel()
 	dc := NewDnsConn(TraditionalDnsConnOpts{WithLengthHeader: stream, MaxConcurrentQuery: 8}, conn)
+	// the connection has served an arbitrary number of queries before: the wire-ID counter is anywhere,
+	// in particular just below the top of its range
+	vrtSetCounter(&dc.nextQid, vrtU16()&3, vrtChoice(2) == 1)
 
 	// the server: answers frame k (echo) once it has been written
 	go func() {
